@@ -111,7 +111,12 @@ class Analysis:
         self.init_terms = flatten(c["ok"], "self", {})
         pol = symex.Policy(F, modular=False, inline_loops=True)
         for fn in F.fns_of(struct):
-            if fn.derived or fn.trait_short not in ("Next", "Reset"):
+            # every hand-written method that can change the state takes part in the induction (not only next/reset: an inherent
+            # `&mut self` helper of the public API reaches states too); constructors are the base case, fmt/default/helpers are not writers
+            if fn.derived or fn.is_ctor or fn.path in F.helpers() or fn.trait_short in ("Display", "Debug", "Default", "Clone", "Period"):
+                continue
+            recv_ = fn.locals[1]["ty"] if fn.arg_count >= 1 else {}
+            if fn.trait_short not in ("Next", "Reset") and not (recv_.get("k") == "ref" and recv_.get("mut")) and not (recv_.get("k") == "adt" and recv_.get("krate") == F.d["crate"]):
                 continue
             try:
                 self.methods[fn.label] = (fn, symex.evaluate(F, fn, pol, canon=True))
@@ -133,7 +138,7 @@ class Analysis:
             return Iv(1.0, INF, False, True, True)
         if t[0] == "pre":
             # unknown pre-state path (e.g. enum payload never initialised): top without NaN is unsound; use top
-            return self.inv.get(t[1], Iv.bot())
+            return self.inv.get(t[1], Iv.bot())  # (bot = "no writer reaches it": neutral in the fixpoint; every writer is in the induction below)
         if t[0] == "ivar":
             return Iv(0.0, INF)
         if t[0] == "lv":
@@ -173,6 +178,8 @@ class Analysis:
                     changed = True
             if not changed:
                 break
+        else:
+            self.errors.append("the class-invariant fixpoint did not settle in %d rounds" % self.rounds)
 
     def site_env(self, site):
         env = self.base_env()
